@@ -2,7 +2,8 @@
    (fsic/core/containers.py).  Definitions only, total, executable.
 
    * `rewrite`      = index_re.sub(resolve_indexes, expression) with index_re = \[\s*(.+?)?\s*\]
-                      as a total function on Latin-1 strings (first exception aborts, left to right);
+                      as a total function on Latin-1 strings (first exception aborts, left to right); a match whose text
+                      contains no backtick is returned unchanged (fix 24bdfbd);
    * `resolve_group`= the callback `resolve_indexes` (split on ':', backticked parts through the span,
                       int() of the others, +1 on a Python-int stop, step kept verbatim);
    * `eval_M`       = eval(): rewriting only if a backtick occurs, namespace assembly
@@ -159,6 +160,15 @@ Definition match_bracket (r : string) : bmatch :=
             end
   end.
 
+(* match.group(0): the text matched at an opening bracket followed by r, when `rest` is what the match leaves unconsumed *)
+Fixpoint sprefix (n : nat) (s : string) : string :=
+  match n, s with
+  | S k, String c r => String c (sprefix k r)
+  | _, _ => ""
+  end.
+Definition matched_text (r rest : string) : string :=
+  String ch_open (sprefix (String.length r - String.length rest) r).
+
 Definition omap {A B} (f : A -> B) (o : outcome A) : outcome B :=
   match o with Ret a => Ret (f a) | Raise e => Raise e end.
 
@@ -224,11 +234,16 @@ Section Resolve.
             if Ascii.eqb c ch_open then
               match match_bracket r with
               | BGroup g rest =>
-                  match resolve_group g with
-                  | Raise e => Raise e
-                  | Ret t => omap (fun u => t ++ u) (rewrite_f f rest)
-                  end
-              | BNoGroup _ => Raise AttributeError                    (* None.split *)
+                  let m := matched_text r rest in
+                  if negb (has_char ch_tick m) then omap (fun u => m ++ u) (rewrite_f f rest)   (* fix 24bdfbd: returned unchanged *)
+                  else match resolve_group g with
+                       | Raise e => Raise e
+                       | Ret t => omap (fun u => t ++ u) (rewrite_f f rest)
+                       end
+              | BNoGroup rest =>
+                  let m := matched_text r rest in
+                  if negb (has_char ch_tick m) then omap (fun u => m ++ u) (rewrite_f f rest)
+                  else Raise AttributeError                           (* None.split — group(0) = `[ws]` has no backtick: unreachable *)
               | BNoMatch => omap (String c) (rewrite_f f r)
               end
             else omap (String c) (rewrite_f f r)
